@@ -15,8 +15,9 @@
 EXTENDS Paging, Json, IOUtils
 
 VARIABLES l, world, cur, keyM, keyC, pAny, pTag,
+          info,         \* per listed permanode: rank, sort keys, tag (computed once per world; TLC re-evaluates LET definitions at every use, primed variables are evaluated once)
           full          \* the four ordered lists (constraint class x sort), computed once per world
-tvars == <<l, world, cur, keyM, keyC, pAny, pTag, full, time, match>>
+tvars == <<l, world, cur, keyM, keyC, pAny, pTag, info, full, time, match>>
 
 C == INSTANCE Claims WITH Deviations <- {}, MaxClaims <- 0, MaxDeletes <- 0, SAttrs <- {}, SVals <- {}, SDates <- {},
                           DelDates <- {}, DelSigners <- {}, MixDeletes <- FALSE, world <- world
@@ -79,26 +80,23 @@ AroundClass(e) == IF e.err # "" THEN "error"
                   ELSE IF e.pivot \notin SeqToSet(e.out) THEN "pivot-missing"
                   ELSE IF Len(e.out) > e.limit THEN "over-limit" ELSE "not-contiguous"
 
-TInit == /\ l = 1 /\ world = {} /\ cur = [cls |-> ""] /\ keyM = <<>> /\ keyC = <<>> /\ pAny = {} /\ pTag = {} /\ full = <<>>
+TInit == /\ l = 1 /\ world = {} /\ cur = [cls |-> ""] /\ keyM = <<>> /\ keyC = <<>> /\ pAny = {} /\ pTag = {} /\ info = {} /\ full = <<>>
          /\ time = <<>> /\ match = {}
 
 TWorld == /\ l <= Len(Trace) /\ Ev.ev = "world"
-          /\ LET W == SeqToSet(Ev.items)
-                 infos == {Info(W, Ev.vtimes, Ev.tagval, p) : p \in PnItems(W)}
-                 L == {i \in infos : i.listed}
-                 byRank == [r \in {i.rank : i \in L} |-> CHOOSE i \in L : i.rank = r]
-             IN /\ world' = W
-                /\ pAny' = DOMAIN byRank
-                /\ pTag' = {r \in DOMAIN byRank : byRank[r].tag}
-                /\ keyM' = [r \in DOMAIN byRank |-> byRank[r].mod]
-                /\ keyC' = [r \in DOMAIN byRank |-> byRank[r].created]
+          /\ world' = SeqToSet(Ev.items)
+          /\ info' = {i \in {Info(world', Ev.vtimes, Ev.tagval, p) : p \in PnItems(world')} : i.listed}
+          /\ pAny' = {i.rank : i \in info'}
+          /\ pTag' = {i.rank : i \in {i \in info' : i.tag}}
+          /\ keyM' = [r \in pAny' |-> (CHOOSE i \in info' : i.rank = r).mod]
+          /\ keyC' = [r \in pAny' |-> (CHOOSE i \in info' : i.rank = r).created]
           /\ cur' = [cls |-> Ev.cls]
           /\ full' = [k \in {"any", "tag"} \X {"mod", "created"} |->
                          Full(IF k[1] = "any" THEN pAny' ELSE pTag', IF k[2] = "mod" THEN keyM' ELSE keyC')]
           /\ l' = l + 1 /\ UNCHANGED <<time, match>>
 
 TLine == /\ l <= Len(Trace) /\ Ev.ev # "world"
-         /\ l' = l + 1 /\ UNCHANGED <<world, cur, keyM, keyC, pAny, pTag, full, time, match>>
+         /\ l' = l + 1 /\ UNCHANGED <<world, cur, keyM, keyC, pAny, pTag, info, full, time, match>>
          /\ IF Ev.ev = "pages"
             THEN PagesOk(Ev) \/ PrintT(<<"VIOL", l, "pages", Ev.sort, PagesClass(Ev), cur.cls, FullOf(Ev)>>)
             ELSE /\ AroundOk(Ev) \/ PrintT(<<"VIOL", l, "around", Ev.sort, AroundClass(Ev), cur.cls, FullOf(Ev)>>)
